@@ -60,15 +60,17 @@ func (c *Consistent) hash(key string) int64 {
 // pick get a  node
 func (c *Consistent) pick(sessions *sync.Map, key string) getty.Session {
 	hashKey := c.hash(key)
+	// ring and index are replaced together by refreshHashCircle: read them under one lock
+	c.RLock()
 	index := sort.Search(len(c.sortedHashNodes), func(i int) bool {
 		return c.sortedHashNodes[i] >= hashKey
 	})
 
 	if index == len(c.sortedHashNodes) {
+		c.RUnlock()
 		return RandomLoadBalance(sessions, key)
 	}
 
-	c.RLock()
 	session, ok := c.hashCircle[c.sortedHashNodes[index]]
 	if !ok {
 		c.RUnlock()
@@ -110,8 +112,10 @@ func (c *Consistent) refreshHashCircle(sessions *sync.Map) {
 		return sortedHashNodes[i] < sortedHashNodes[j]
 	})
 
+	c.Lock()
 	c.sortedHashNodes = sortedHashNodes
 	c.hashCircle = hashCircle
+	c.Unlock()
 }
 
 func (c *Consistent) firstKey() getty.Session {
